@@ -271,7 +271,13 @@ func (o *oidcHandler) redirectToIDP(ctx context.Context, log telemetry.Logger,
 		"code_challenge":        []string{oauth2.S256ChallengeFromVerifier(codeVerifier)},
 		"code_challenge_method": []string{"S256"},
 	}
-	redirectURL := o.config.GetAuthorizationUri() + "?" + query.Encode()
+	// The authorization endpoint may have a query component of its own, which must be retained
+	// (RFC 6749 section 3.1): in that case the parameters are appended to the existing query.
+	separator := "?"
+	if strings.Contains(o.config.GetAuthorizationUri(), "?") {
+		separator = "&"
+	}
+	redirectURL := o.config.GetAuthorizationUri() + separator + query.Encode()
 
 	// Generate denied response with redirect headers
 	deny := newDenyResponse()
